@@ -96,11 +96,13 @@ def make_boundary_vec(seed, size, which='avx2'):
     for i in range(size):
         ctx.block()
         mode = ['max', 'nominal_max', 'near_max', 'near_nominal', None][i % 5]
-        pre = model.PRE['mul']
+        # operands as large as the crate's own reduction can emit (for IFMA that is 'R', not the wider documented
+        # multiplier range 'M': C11 is about lanes real call chains deliver)
+        pre = model.PRE['mul'] if which == 'avx2' else ('R', 'R')
         a, _ = g.operand(pre[0], mode)
         b, _ = g.operand(pre[1], mode)
         m1 = ctx.add(op, 'mul', vm.tok(a), vm.tok(b), cls='boundary:vec', info='repr')
-        x, _ = g.operand(model.PRE['square'][0], mode)
+        x, _ = g.operand(model.PRE['square'][0] if which == 'avx2' else 'R', mode)
         s1 = ctx.add(op, 'square', vm.tok(x), cls='boundary:vec', info='repr')
         if which == 'ifma':
             # IFMA double() negates a raw squaring output lazily: start it from the largest squaring output
